@@ -932,6 +932,30 @@ class MultiUserChannelMatrix:  # pylint: disable=R0902
                     *= small_matrix[rx, tx]
         return big_matrix
 
+    def _update_pathloss_big_matrix(self) -> None:
+        """
+        Expand the stored path loss (one value per link) to the dimension
+        of the channel matrix for the current number of antennas of each
+        user.
+
+        This must be called whenever the number of users or antennas
+        changes, since otherwise `big_H` would keep applying the path loss
+        with the block structure of the previous antenna configuration. A
+        path loss that was set for a different number of users cannot be
+        applied to the new channel and is discarded.
+        """
+        if self._pathloss_matrix is None:
+            self._pathloss_big_matrix = None
+        elif self._pathloss_matrix.shape != (self.K, self._K):
+            self._pathloss_matrix = None
+            self._pathloss_big_matrix = None
+        else:
+            self._pathloss_big_matrix \
+                = MultiUserChannelMatrix._from_small_matrix_to_big_matrix(
+                    self._pathloss_matrix, self._Nr, self._Nt, self.K,
+                    self._K)
+            self._pathloss_big_matrix.setflags(write=False)
+
     def init_from_channel_matrix(self, channel_matrix: np.ndarray,
                                  Nr: IntOrIntArrayUnion,
                                  Nt: IntOrIntArrayUnion, K: int) -> None:
@@ -986,6 +1010,7 @@ class MultiUserChannelMatrix:  # pylint: disable=R0902
         self._K = K
         self._Nr = Nr_array
         self._Nt = Nt_array
+        self._update_pathloss_big_matrix()
 
         self._big_H_no_pathloss = channel_matrix
 
@@ -1030,6 +1055,7 @@ class MultiUserChannelMatrix:  # pylint: disable=R0902
         self._Nr = Nr.astype(int)
         self._Nt = Nt.astype(int)
         self._K = int(K)
+        self._update_pathloss_big_matrix()
 
         self._big_H_no_pathloss = randn_c_RS(self._RS_channel,
                                              np.sum(self._Nr),
